@@ -371,6 +371,28 @@ def rule_timeout_arm(ctx, cfg, F):
         return
     tr = Tracer(f)
     n = 0
+    # the wait must work for every descriptor number: select()'s fd_set has FD_SETSIZE bits, and FD_SET on a larger descriptor writes outside it
+    for h in F.fns.values():
+        if h.file.endswith("test.rs"):
+            continue
+        trh = None
+        for b, t in h.calls():
+            if strip_generics(callee_name(t)) in ("libc::FD_SET", "libc::FD_ISSET", "libc::FD_CLR"):
+                trh = trh or Tracer(h)
+                bounded = False
+                for s_ in h.live_blocks():
+                    if h.term(s_)["t"] != "switch" or not h.dominates(s_, b):
+                        continue
+                    for tgt in h.succ(s_):
+                        if not (tgt == b or h.dominates(tgt, b)):
+                            continue
+                        for lab in edge_label(h, s_, tgt):
+                            if lab["kind"] == "cmp" and ((lab["op"] == "Lt" and lab["truth"]) or (lab["op"] == "Ge" and not lab["truth"])) and \
+                                    trh.roots_of_operand(lab["a"]) & trh.roots_of_operand(t["args"][0]):
+                                bounded = True
+                if not bounded:
+                    R.violate("%s:fd-set-without-bound" % strip_generics(h.path), "%s puts a descriptor into an fd_set (%s) without first checking it against FD_SETSIZE: a process with more than 1024 "
+                              "open descriptors gets an out-of-bounds write (or an abort) from a timed receive, where poll() has no such limit" % (h.path, strip_generics(callee_name(t))), h.path, h.loc(b), config=cfg)
     for b, t in f.calls_to("libc::poll"):
         n += 1
         roots = tr.roots_of_operand(t["args"][2])
@@ -995,3 +1017,30 @@ def rule_closed_origin(ctx, cfg, F):
                               "a receiver set returns it as the failure of select() and the router stops serving every route", f.path, f.loc(rb), config=cfg)
                     break
     R.count("closed_constructions[%s]" % cfg, n)
+
+
+def rule_recv_keeps_fd(ctx, cfg, F):
+    R = ctx.rule("RECV-KEEPS-FD", "receiving does not give the descriptor away: the receive methods of the platform receiver (recv, try_recv, try_recv_timeout), which take `&self`, neither move the "
+                 "descriptor out of the receiver (consume_fd / Cell::take / replace / set on its fd) nor close it -- a receiver that has reported 'disconnected' or 'empty' is the same "
+                 "receiver afterwards and keeps giving the same answer")
+    n = 0
+    for name in ("recv", "try_recv", "try_recv_timeout"):
+        f = F.fns.get("platform::unix::OsIpcReceiver::" + name)
+        if not f:
+            continue
+        n += 1
+        tr = Tracer(f)
+        bad = None
+        for b, t in f.calls():
+            nm = strip_generics(callee_name(t))
+            if nm.endswith("OsIpcReceiver::consume_fd") or nm in ("libc::close",):
+                bad = (b, nm)
+            if nm in ("std::cell::Cell::set", "std::cell::Cell::replace", "std::cell::Cell::take", "std::mem::replace", "std::mem::take") and t["args"]:
+                if any(r.kind == "param" and r.id == 1 and r.field_names()[:1] == ("fd",) for r in tr.roots_of_operand(t["args"][0])):
+                    bad = (b, nm)
+        if bad:
+            R.violate("%s:receive-gives-descriptor-away" % f.path, "%s (a `&self` receive) calls %s on the receiver's descriptor: after a receive that reported the channel closed the receiver holds no "
+                      "descriptor any more, and the next receive fails with EBADF instead of reporting disconnection again" % (f.path, bad[1]), f.path, f.loc(bad[0]), config=cfg)
+        else:
+            R.ok("%s leaves the receiver's descriptor where it is" % f.path, f.loc(0), cfg)
+    R.count("receive_methods[%s]" % cfg, n)
